@@ -396,7 +396,7 @@ theorem mousePrepare_keep {cfg : Cfg} (R : Repaired cfg) {fuel N : Nat} (hF : N 
   split
   · obtain ⟨K1, P1, hx1⟩ := K.setRoot (fun r => { r with mouseLastButton := info.button, mouseLastLine := info.line, mouseLastCol := info.col })
       rfl (fun s hs => K.tinv.drag_ok s hs)
-    refine ⟨_, rfl, ⟨K1.toSInvB.of_wx rfl rfl rfl rfl rfl rfl, K1.up, K1.lo⟩, ⟨P1.size, P1.live, P1.term⟩, (H.of_wx hx1).of_wx rfl⟩
+    refine ⟨_, rfl, ⟨K1.toSInvB.of_wx rfl rfl rfl rfl rfl rfl, K1.up, K1.lo, K1.glive⟩, ⟨P1.size, P1.live, P1.term⟩, (H.of_wx hx1).of_wx rfl⟩
   · split
     · exact mouseDragStart_keep R hF K H hroot hN
     · split
@@ -434,14 +434,14 @@ theorem emitMouseNew_keep {cfg : Cfg} (R : Repaired cfg) {st : St} (inv : SInv g
     have hrl : LiveW st.tree 0 r := ⟨hr, by cases h : r.freed <;> simp_all⟩
     have K0 : KInv gh { st with termIter := true } (fun _ => 0) := by
       have K := KInv.of_inv inv
-      exact ⟨K.toSInvB.of_wx rfl rfl rfl rfl rfl rfl, K.up, K.lo⟩
+      exact ⟨K.toSInvB.of_wx rfl rfl rfl rfl rfl rfl, K.up, K.lo, K.glive⟩
     have H0 : KeepingHandlers { st with termIter := true } := H.of_wx rfl
     obtain ⟨st1, b1, h1, K1, P1, H1⟩ := onTermMouse_keep R K0 H0 (rw := r) hrl info
     simp only [h1, bind_ok]
     have ht1 : st1.term.freed = false := by rw [P1.term]; exact hfree
     simp only [ht1, Bool.false_eq_true, if_false, pure_ok]
     refine ⟨_, rfl, ?_, H1.of_wx rfl⟩
-    have K2 : KInv gh { st1 with termIter := false } (fun _ => 0) := ⟨K1.toSInvB.of_wx rfl rfl rfl rfl rfl rfl, K1.up, K1.lo⟩
+    have K2 : KInv gh { st1 with termIter := false } (fun _ => 0) := ⟨K1.toSInvB.of_wx rfl rfl rfl rfl rfl rfl, K1.up, K1.lo, K1.glive⟩
     exact K2.to_inv
 
 /-- The operation `mouse`: `tickit_term_emit_mouse` with handlers that free nothing. -/
